@@ -1,16 +1,34 @@
 #!/usr/bin/env python3
 """C11 — evolution strategies keep a valid search distribution and are rank-invariant.
 
-  proofs           Properties_C11.v (rank invariance of selection/recombination, covariance update symmetric / positive
-                   definite, sigma > 0, elitist acceptance, penalised evaluation), axiom-free over Q
+  proofs           Properties_C11.v: over Q, axiom-free (rank invariance of selection/recombination, CMA covariance update symmetric /
+                   positive definite incl. the corner c1 + cMu = 1, sigma > 0, elitist acceptance, penalised evaluation, VDCMA's
+                   D(I+vv^T)D positive definite iff no D_i is zero, D-update positive iff meanS > -1); over R, real-number axioms
+                   only (cholesky_decomposition::update represents alpha LL^T + beta vv^T, success conditions, determinant factor;
+                   CMSA::updatePopulation and every branch of the CMAChromosome update keep sigma > 0 and the factor non-singular;
+                   VDCMA::createSample realises the covariance I + vv^T)
   correspondence   extracted model (float instantiation) vs the real code compiled from /repo:
                      COR   CMA::updatePopulation on the offspring read back from the implementation (1e-10 relative),
                            step() == generateOffspring + PenalizingEvaluator + updatePopulation (exact),
                      ECOR  ElitistCMA acceptance / ancestral window (exact),   P  PenalizingEvaluator (exact, dyadic inputs)
+                     SCOR  CMSA::updatePopulation incl. the Cholesky rank-one updates (remora cholesky_decomposition::update)
+                           = C11Model.cmsa_update on the offspring read back (1e-10), step() == generate+evaluate+update (exact),
+                     CCOR  CMAChromosome::updateAsOffspring / updateAsParent / roundUpdate as driven by ElitistCMA::step
+                           = C11Model.ecma_chrom_step on the mutation read back from an identical twin (1e-10),
+                     VCOR  VDCMA::updateStrategyParameters (+ selection, counter) = C11Model.vd_update (1e-10),
+                           step() == createSample + evaluate + select + update by hand (exact),
+                           VDCMA::createSample on the normal draws read back = C11Model.vd_sample, D(I+vv^T)D = C11Model.vd_cov (1e-10),
+                     CH    cholesky_decomposition::update on exact inputs (small integers, dyadic) = exact rational spec
+                           (throws iff alpha LL^T + beta vv^T is not positive definite) = C11Model.chol_update (None iff throws)
   spec monitors    every step of CMA, CMSA, ElitistCMA, VDCMA, CrossEntropyMethod, SimplexDownhill: sigma > 0 finite,
                    covariance symmetric positive definite, value = objective at the (closest feasible) reported point,
                    same seed => identical run, f vs 4*f => identical iterates, elitist never worse, sphere budget table,
-                   update invariant under permuting the offspring array (ranks only).
+                   update invariant under permuting the offspring array (ranks only);
+                   SCOR: sigma' > 0, factor lower triangular with positive diagonal, mean' = average of the mu best,
+                         L'L'^T = (1-1/cC) LL^T + 1/(mu cC) sum step step^T (computed here), best = best-ranked offspring;
+                   CCOR: sigma' > 0, factor diagonal > 0, lastStep = L lastZ, L'L'^T = alpha LL^T + beta v v^T with
+                         (alpha, beta, v) of the branch recomputed here (success class, psucc', threshold, guard), no exception;
+                   VCOR: sigma' > 0, every D_i > 0, |v| > 0, |vn| = 1, mean' = weighted recombination of the mu best.
 """
 import os, sys, re, math
 from fractions import Fraction
@@ -287,6 +305,273 @@ def monitor_u(cmd, step, r):
     return bad
 
 
+# ------------------------------------------------------------------------------------------------ SCOR / CCOR / VCOR
+RTOL_ID = 1e-9      # covariance identities (python recomputation)
+
+def gen_scor(rng, k):
+    out = []
+    for _ in range(k):
+        n = rng.randint(2, 8); lam = mu = 0
+        r = rng.random()
+        if r < 0.2:           # population large relative to the dimension: cC close to 1, 1 - 1/cC small
+            n = rng.choice([2, 2, 3, 4]); lam = rng.choice([24, 40]); mu = rng.choice([lam // 4, lam // 2])
+        elif r < 0.7:
+            lam = rng.choice([2 * n, 4 * n, 8 * n + 1]); mu = rng.choice([0, 1, max(1, lam // 4), lam // 2])
+        sig = rng.choice([0, 0.125, 1, 5]); fid = rng.choice([0, 1, 2, 4, 6, 3, 5])
+        out.append("SCOR %d %d %d %s %d %d %d" % (n, lam, mu, repr(sig), rng.randint(1, 10 ** 6), fid, rng.randint(3, 20)))
+    return out
+
+def gen_ccor(rng, k):
+    out = []
+    for _ in range(k):
+        n = rng.choice([2, 2, 2, 3, 3, 4, 5, 6, 8, 10])      # the guard of the active update needs |z|^2 > (1/cu + 1)/2: frequent only in low dimension
+        out.append("CCOR %d %d %d %d %d %s" % (n, rng.randint(1, 10 ** 6), rng.choice([0, 0, 1, 2, 4, 6, 3, 5]), rng.randint(60, 300),
+                                                rng.choice([1, 1, 1, 0]), repr(rng.choice([0.125, 0.125, 0, 1, 30]))))
+    return out
+
+def gen_vcor(rng, k):
+    out = []
+    for _ in range(k):
+        n = rng.randint(2, 10); lam = mu = 0
+        if rng.random() < 0.5:
+            lam = rng.choice([n + 3, 2 * n + 2, 4 * n]); mu = rng.choice([max(1, lam // 2), max(1, lam // 4), 1])
+        sig = rng.choice([0, 0.125, 1, 5]); fid = rng.choice([0, 1, 2, 4, 6, 3, 5])
+        out.append("VCOR %d %d %d %s %d %d %d" % (n, lam, mu, repr(sig), rng.randint(1, 10 ** 6), fid, rng.randint(3, 25)))
+    return out
+
+def hdr(part):
+    return dict(x.split("=") for x in part.split()[1:])
+
+def fmat(xs, n):
+    return [[xs[i * n + j] for j in range(n)] for i in range(n)]
+
+def llt(L, n):
+    return [[sum(L[i][k] * L[j][k] for k in range(n)) for j in range(n)] for i in range(n)]
+
+def mrel(A, B):
+    """largest entrywise difference relative to the largest entry"""
+    fa = [x for r in A for x in r]; fb = [x for r in B for x in r]
+    if not all(finite(x) for x in fa + fb): return float("inf")
+    return max([abs(x - y) for x, y in zip(fa, fb)] + [0.0]) / max([abs(x) for x in fa + fb] + [1e-300])
+
+def vrel(a, b):
+    if not all(finite(x) for x in a + b): return float("inf")
+    return max([abs(x - y) for x, y in zip(a, b)] + [0.0]) / max([abs(x) for x in a + b] + [1e-300])
+
+def factor_bad(Ls, n):
+    """None if the n*n row-major list is a lower triangular matrix with finite entries and positive diagonal"""
+    if len(Ls) != n * n or not all(finite(x) for x in Ls): return "factor has non-finite entries"
+    for i in range(n):
+        if not Ls[i * n + i] > 0: return "diagonal entry %d of the Cholesky factor is %r (factor singular)" % (i, Ls[i * n + i])
+        for j in range(i + 1, n):
+            if Ls[i * n + j] != 0: return "entry (%d,%d) above the diagonal of the Cholesky factor is %r" % (i, j, Ls[i * n + j])
+    return None
+
+# ---- cholesky_decomposition::update directly (including its exception exit)
+def gen_chol(rng, k):
+    out = []
+    for _ in range(k):
+        n = rng.randint(1, 5)
+        L = [[(rng.choice([1.0, 2.0, 4.0, 0.5]) if i == j else (float(rng.randint(-3, 3)) if j < i else 0.0)) for j in range(n)] for i in range(n)]
+        alpha = rng.choice([1.0, 0.25, 2.25, 4.0, 0.8125, 1.5])
+        beta = rng.choice([0.0, 0.5, 1.0, 0.3125, -0.25, -0.5, -1.0, -3.0, -0.0625])
+        if rng.random() < 0.5:
+            z = [rng.randint(-4, 4) / 2.0 for _ in range(n)]
+            v = [sum(L[i][j] * z[j] for j in range(n)) for i in range(n)]
+        else:
+            v = [float(rng.randint(-3, 3)) for _ in range(n)]
+        if rng.random() < 0.15: v = [0.0] * n
+        if rng.random() < 0.12:      # exactly singular downdate: alpha + beta |z|^2 = 0 (the pivot x is exactly 0: boundary of the exception test)
+            alpha, beta, zz = rng.choice([(1.0, -0.25, [2.0]), (1.0, -1.0, [1.0]), (4.0, -1.0, [2.0]), (0.25, -0.25, [1.0]), (2.25, -0.25, [3.0]), (1.0, -0.25, [1.0, 1.0, 1.0, 1.0]), (2.25, -0.25, [2.0, 2.0, 1.0])])
+            if len(zz) <= n:
+                z = zz + [0.0] * (n - len(zz)); rng.shuffle(z)
+                v = [sum(L[i][j] * z[j] for j in range(n)) for i in range(n)]
+        out.append("CH %d %s" % (n, " ".join(float(x).hex() for x in [alpha, beta] + [L[i][j] for i in range(n) for j in range(n)] + v)))
+    return out
+
+def spec_chol(line, got):
+    """independent predicate on the implementation's answer: exact rational arithmetic.
+    A = alpha L L^T + beta v v^T; no exception <=> A positive definite (exact LDL^T pivots), and then L'L'^T == A (1e-9);
+    on an exactly singular A both answers are accepted as long as a returned factor is proper (see below)"""
+    t = line.split(); n = int(t[1]); x = [Fraction(float.fromhex(a)) for a in t[2:]]
+    alpha, beta = x[0], x[1]; L = [x[2 + i * n:2 + (i + 1) * n] for i in range(n)]; v = x[2 + n * n:]
+    A = [[alpha * sum(L[i][k] * L[j][k] for k in range(n)) + beta * v[i] * v[j] for j in range(n)] for i in range(n)]
+    M = [row[:] for row in A]; pd = True; singular = False
+    for k in range(n):
+        if M[k][k] <= 0:
+            pd = False; singular = (M[k][k] == 0); break
+        for i in range(k + 1, n):
+            f = M[i][k] / M[k][k]
+            for j in range(k, n): M[i][j] -= f * M[k][j]
+    if got[:1] == ["EXC"]:
+        return None if not pd else "update(alpha=%s, beta=%s) throws although alpha L L^T + beta v v^T is positive definite" % (float(alpha), float(beta))
+    if got[:1] in (["BADL"], ["STDEXC"]): return "harness: " + " ".join(got)
+    R = [fh(a) for a in got[0].split(",")] if len(got) == 1 else [fh(a) for a in got]
+    if singular:
+        # exactly singular target (first non-positive pivot is 0): the floating-point pivot may round to a tiny positive number, so a returned
+        # factor is accepted iff it is a proper factor (finite, diagonal > 0); a zero / NaN diagonal (pivot exactly 0 let through) is not
+        m = factor_bad(R, n)
+        return None if m is None else "update(alpha=%s, beta=%s) on an exactly singular target returns an improper factor: %s" % (float(alpha), float(beta), m)
+    if not pd: return "update(alpha=%s, beta=%s) returns a factor although alpha L L^T + beta v v^T is not positive definite" % (float(alpha), float(beta))
+    m = factor_bad(R, n)
+    if m: return m
+    Rm = fmat(R, n); e = mrel(llt(Rm, n), [[float(a) for a in row] for row in A])
+    if e > RTOL_ID: return "L'L'^T differs from alpha L L^T + beta v v^T (relative %g)" % e
+    return None
+
+# ---- CMSA
+def parse_su(l):
+    parts = [p.strip() for p in l.split("|")]
+    hd = hdr(parts[0]); n, lam, mu = map(int, parts[1].split())
+    r = {"same": hd["same"] == "1", "perm": hd["perm"] == "1", "n": n, "lam": lam, "mu": mu, "cC": parts[2], "sigma": parts[3],
+         "mean": parts[4].split(","), "L": parts[5].split(","), "off": [o.split(";") for o in parts[6].split()], "post": None}
+    if parts[7] != "EXC":
+        r["post"] = {"sigma": parts[7], "mean": parts[8].split(","), "L": parts[9].split(","), "best": parts[10], "bestpt": parts[11].split(",")}
+    return r
+
+def model_line_su(r):
+    tok = ["S", str(r["n"]), str(r["lam"]), str(r["mu"]), r["cC"]] + r["L"]
+    for o in r["off"]:
+        tok += [o[0]] + o[1].split(",") + o[2].split(",") + [o[3]]
+    return " ".join(tok)
+
+def monitor_su(cmd, step, r):
+    n, mu = r["n"], r["mu"]; w = "`%s` step %d: " % (cmd, step)
+    fit_list = [fh(o[0]) for o in r["off"]]
+    r["ties"] = len(set(fit_list)) != len(fit_list)
+    if r["post"] is None:
+        return [("scor:exception", w + "CMSA::updatePopulation throws (Cholesky update reports an indefinite matrix)")]
+    post = r["post"]; bad = []
+    s = fh(post["sigma"]); Lp = [fh(x) for x in post["L"]]
+    if not (finite(s) and s > 0): bad.append(("scor:sigma", w + "sigma' = %r not positive finite" % s))
+    m = factor_bad(Lp, n)
+    if m: bad.append(("scor:factor", w + m + " (covariance L L^T no longer positive definite)"))
+    if not r["same"]: bad.append(("scor:step-differs", w + "CMSA::step differs from generateOffspring + PenalizingEvaluator + updatePopulation with the same random numbers"))
+    if r["ties"] or bad: return bad
+    if not r["perm"]:
+        bad.append(("scor:order-dependent", w + "CMSA::updatePopulation gives a different state for the reversed offspring array (the update must depend on fitness ranks only)"))
+    offs = sorted([(fh(o[0]), [fh(x) for x in o[1].split(",")], [fh(x) for x in o[2].split(",")], fh(o[3])) for o in r["off"]], key=lambda z: z[0])[:mu]
+    if fh(post["best"]) != offs[0][0] or [fh(x) for x in post["bestpt"]] != offs[0][1]:
+        bad.append(("scor:best", w + "reported solution is not the best-ranked offspring"))
+    mean = [sum(o[1][i] for o in offs) / mu for i in range(n)]
+    if not vclose(mean, [fh(x) for x in post["mean"]]):
+        bad.append(("scor:mean", w + "new mean is not the average of the mu best offspring"))
+    if not vclose([sum(o[3] for o in offs) / mu], [s]):
+        bad.append(("scor:sigma-mean", w + "sigma' = %r is not the average %r of the step sizes of the mu best offspring" % (s, sum(o[3] for o in offs) / mu)))
+    cC = fh(r["cC"]); C = llt(fmat([fh(x) for x in r["L"]], n), n)
+    want = [[(1 - 1 / cC) * C[i][j] + sum(o[2][i] * o[2][j] for o in offs) / (mu * cC) for j in range(n)] for i in range(n)]
+    e = mrel(llt(fmat(Lp, n), n), want)
+    if not e <= RTOL_ID:
+        bad.append(("scor:cov-identity", w + "L'L'^T differs from (1-1/cC) L L^T + 1/(mu cC) sum_i step_i step_i^T (the mu best steps) by %g relative to the largest entry" % e))
+    return bad
+
+# ---- CMAChromosome
+def parse_cu(l):
+    parts = [p.strip() for p in l.split("|")]
+    r = {"same": hdr(parts[0])["same"] == "1", "n": int(parts[1]), "consts": parts[2].split(), "active": parts[3], "anc": parts[4].split(), "pen": parts[5],
+         "L": parts[6].split(","), "pc": parts[7].split(","), "step": parts[8].split(","), "z": parts[9].split(","), "ss": parts[10].split(), "post": None}
+    if parts[11] != "EXC":
+        r["post"] = {"L": parts[11].split(","), "pc": parts[12].split(","), "ss": parts[13].split()}
+    return r
+
+def model_line_cu(r):
+    return " ".join(["C", str(r["n"])] + r["consts"] + [r["active"], str(len(r["anc"]))] + r["anc"] + [r["pen"]] + r["L"] + r["pc"] + r["step"] + r["z"] + r["ss"])
+
+def branch_cu(r):
+    """the branch of ElitistCMA::step / CMAChromosome recomputed from the record: (name, alpha, beta, v)"""
+    n = r["n"]; cp, d, pt, cc, ccov, cu, thr = [fh(x) for x in r["consts"]]
+    anc = [fh(x) for x in r["anc"]]; pen = fh(r["pen"]); psucc = fh(r["ss"][1])
+    pc = [fh(x) for x in r["pc"]]; step = [fh(x) for x in r["step"]]; z = [fh(x) for x in r["z"]]
+    succ = "S"
+    if pen >= anc[-1]: succ = "U"
+    if r["active"] == "1" and pen > anc[0]: succ = "F"
+    ps1 = (1 - cp) * psucc + cp * (1.0 if succ == "S" else 0.0)
+    wgt = cc * (2. - cc)
+    rnd = ("round", 1 - ccov + wgt, ccov, [(1 - cc) * x for x in pc])
+    if succ == "S":
+        if ps1 < thr: return ("offspring", 1 - ccov, ccov, [(1 - cc) * x + math.sqrt(wgt) * y for x, y in zip(pc, step)])
+        return ("offspring-" + rnd[0],) + rnd[1:]
+    if succ == "U": return ("unsuccessful", 1.0, 0.0, [0.0] * n)
+    if ps1 < thr:
+        zz = sum(x * x for x in z); rate = cu; name = "failure-active"
+        if zz > 1 and 1 < cu * (2 * zz - 1):
+            rate = 1.0 / (2 * zz - 1); name = "failure-active-guard"
+        return (name, 1 + rate, -rate, step)
+    return ("failure-" + rnd[0],) + rnd[1:]
+
+def monitor_cu(cmd, step, r):
+    n = r["n"]; w = "`%s` step %d: " % (cmd, step)
+    if not r["same"]:
+        return [("ccor:twin", w + "a copy of the optimizer with the same generator state does not draw the same mutation as ElitistCMA::step")]
+    L = fmat([fh(x) for x in r["L"]], n); z = [fh(x) for x in r["z"]]; st = [fh(x) for x in r["step"]]
+    bad = []
+    e = vrel([sum(L[i][k] * z[k] for k in range(n)) for i in range(n)], st)
+    if not e <= 1e-12: bad.append(("ccor:step", w + "m_lastStep differs from L * m_lastZ by %g (relative)" % e))
+    br = branch_cu(r); r["branch"] = br[0]
+    if r["post"] is None:
+        return bad + [("ccor:exception", w + "ElitistCMA::step throws in branch %s (Cholesky update reports an indefinite matrix)" % br[0])]
+    post = r["post"]; s = fh(post["ss"][0]); Lp = [fh(x) for x in post["L"]]
+    if not (finite(s) and s > 0): bad.append(("ccor:sigma", w + "step size after the update = %r not positive finite" % s))
+    m = factor_bad(Lp, n)
+    if m: bad.append(("ccor:factor", w + m + " (branch %s)" % br[0]))
+    if bad: return bad
+    C = llt(L, n); _, alpha, beta, v = br
+    want = [[alpha * C[i][j] + beta * v[i] * v[j] for j in range(n)] for i in range(n)]
+    e = mrel(llt(fmat(Lp, n), n), want)
+    if not e <= RTOL_ID:
+        bad.append(("ccor:cov-identity", w + "branch %s: L'L'^T differs from alpha L L^T + beta v v^T (alpha = %r, beta = %r) by %g relative to the largest entry" % (br[0], alpha, beta, e)))
+    return bad
+
+# ---- VDCMA
+def parse_vu(l):
+    parts = [p.strip() for p in l.split("|")]
+    n, lam, mu = map(int, parts[1].split()); counter, sigma = parts[3].split()
+    return {"same": hdr(parts[0])["same"] == "1", "n": n, "lam": lam, "mu": mu, "consts": parts[2].split(), "counter": counter, "sigma": sigma,
+            "mean": parts[4].split(","), "D": parts[5].split(","), "vn": parts[6].split(","), "normv": parts[7], "pc": parts[8].split(","), "ps": parts[9].split(","),
+            "ws": parts[10].split(","), "off": [o.split(";") for o in parts[11].split()],
+            "post": {"sigma": parts[12], "mean": parts[13].split(","), "D": parts[14].split(","), "vn": parts[15].split(","), "normv": parts[16],
+                     "pc": parts[17].split(","), "ps": parts[18].split(","), "best": parts[19], "bestpt": parts[20].split(",")},
+            "sz": parts[21].split(","), "sx": parts[22].split(","), "sy": parts[23].split(","), "sreplay": parts[24] == "1"}
+
+def model_line_vu(r):
+    tok = ["V", str(r["n"]), str(r["lam"]), str(r["mu"])] + r["consts"] + [r["counter"], r["sigma"]] + r["mean"] + r["D"] + r["vn"] + [r["normv"]] + r["pc"] + r["ps"] + r["ws"]
+    for o in r["off"]:
+        tok += [o[0]] + o[1].split(",") + o[2].split(",")
+    return " ".join(tok + r["sz"])
+
+def vd_cov_py(D, vn, nv):
+    """C = D (I + v v^T) D, v = nv * vn, as a flat row-major list"""
+    n = len(D); v = [nv * a for a in vn]
+    return [D[i] * ((1.0 if i == j else 0.0) + v[i] * v[j]) * D[j] for i in range(n) for j in range(n)]
+
+def monitor_vu(cmd, step, r):
+    n, mu = r["n"], r["mu"]; w = "`%s` step %d: " % (cmd, step); post = r["post"]; bad = []
+    fit_list = [fh(o[0]) for o in r["off"]]
+    r["ties"] = len(set(fit_list)) != len(fit_list)
+    s = fh(post["sigma"]); D = [fh(x) for x in post["D"]]; nv = fh(post["normv"]); vn = [fh(x) for x in post["vn"]]
+    if not (finite(s) and s > 0): bad.append(("vcor:sigma", w + "sigma' = %r not positive finite" % s))
+    if not all(finite(x) and x > 0 for x in D):
+        i = next(i for i, x in enumerate(D) if not (finite(x) and x > 0))
+        bad.append(("vcor:D-not-positive", w + "D'[%d] = %r is not positive and finite (pre D[%d] = %r): the sampling matrix D (I + v v^T) D degenerates / changes sign" % (i, D[i], i, fh(r["D"][i]))))
+    if not (finite(nv) and nv > 0): bad.append(("vcor:normv", w + "|v|' = %r not positive finite" % nv))
+    elif not (all(finite(x) for x in vn) and abs(math.sqrt(sum(x * x for x in vn)) - 1) <= 1e-12):
+        bad.append(("vcor:vn-not-unit", w + "the stored direction vn' is not a unit vector (norm %r)" % math.sqrt(sum(x * x for x in vn if finite(x)))))
+    if not r["sreplay"]: bad.append(("vcor:sample-replay", w + "createSample called again with the same generator state does not return offspring 0"))
+    if not bad:
+        m = chol_pd(vd_cov_py(D, vn, nv), n)
+        if m: bad.append(("vcor:cov-not-pd", w + "D (I + v v^T) D of the post state is not positive definite: " + m))
+    if not r["same"]: bad.append(("vcor:step-differs", w + "VDCMA::step differs from createSample + PenalizingEvaluator + ElitistSelection + counter++ + updateStrategyParameters with the same random numbers"))
+    if r["ties"] or bad: return bad
+    offs = sorted([(fh(o[0]), [fh(x) for x in o[1].split(",")]) for o in r["off"]], key=lambda z: z[0])
+    if fh(post["best"]) != offs[0][0] or [fh(x) for x in post["bestpt"]] != offs[0][1]:
+        bad.append(("vcor:best", w + "reported solution is not the best-ranked offspring"))
+    ws = [fh(x) for x in r["ws"]]
+    m = [sum(wt * o[1][i] for wt, o in zip(ws, offs)) for i in range(n)]
+    if not vclose(m, [fh(x) for x in post["mean"]]):
+        bad.append(("vcor:mean", w + "new mean is not the weighted recombination of the mu best offspring"))
+    return bad
+
+
 # ------------------------------------------------------------------------------------------------ ECOR / P
 def gen_ecor(rng, k):
     return ["ECOR %d %d %d %d %d %s" % (rng.randint(2, 10), rng.randint(1, 10 ** 6), rng.choice([0, 1, 2, 4, 6, 3, 5]), rng.randint(20, 200),
@@ -318,14 +603,17 @@ def main():
     ck = Check(PID)
     ck.trusted = DEFAULT_TRUSTED + [
         "harness/c11_es.cpp reads private/protected members of the optimizers through '#define private public' in that TU only (no source change)",
-        "modelled not verified: symmetric eigendecomposition (its eigenvectors are an explicit input of the model), Cholesky rank-one updates of CMSA/ElitistCMA, std::sort (proved: any sorted permutation of a tie-free list is the model's list), libm exp/sqrt/pow, the Mersenne twister",
+        "modelled not verified: symmetric eigendecomposition (its eigenvectors are an explicit input of the model), std::sort (proved: any sorted permutation of a tie-free list is the model's list), libm exp/sqrt/pow, the Mersenne twister",
+        "the Cholesky rank-one update (remora cholesky_decomposition::update) used by CMSA and CMAChromosome is modelled (C11Model.chol_update), proved (over R) and compared on every SCOR/CCOR record and on exact CH inputs; its std::invalid_argument exit (update makes the matrix indefinite) = None of the model is reached by the CH inputs only (proved unreachable from CMSA / CMAChromosome under their constants); NaN inputs are outside the comparison (x <= 0 and gamma == 0 are modelled with the strict order only)",
         "float instantiation of the model uses OCaml's IEEE double operations; comparison at 1e-10 relative to the largest entry of each vector/matrix"]
     ck.assumptions = [
         "objectives from the generated family: sphere, ellipsoid, Rosenbrock, cigar, sqrt(sqrt(sphere)), box-restricted shifted sphere and linear function (feasibility by overriding isFeasible/closestFeasible; announced constraint handlers are refused by all six optimizers in checkFeatures)",
         "exactly order-preserving rescaling = multiplication by 4 (exact in binary floating point)",
         "random::globalRng is seeded after proposeStartingPoint; deterministic (non-noisy) objectives, PenalizingEvaluator::m_numEvaluations = 1",
         "sphere-budget runs are monitored up to the step that reaches the target (afterwards variances may underflow to 0, e.g. cross entropy at values ~1e-300)",
-        "cov_update_pd is proved for c1 + cMu < 1; the corner c1 + cMu = 1 (large populations, low dimension) is sampled by the monitor only"]
+        "in the corner c1 + cMu = 1 of CMA (large populations, low dimension) positive definiteness is proved equivalent to full rank of evolution path + selected steps (hsig = 1); that rank condition itself is a property of the sample: monitored",
+        "VDCMA: D stays positive iff every component of meanS exceeds -1 (proved); the code does not enforce it: monitored on every recorded update (vcor:D-not-positive)",
+        "theorems about the Cholesky-factor models are over the real numbers (exact square roots); floating-point rounding is covered by the 1e-10 comparison only"]
     ck.proofs()
     model = extract_model(PID, "C11Extract.v", "c11_driver.ml")
     exe, err = cxx_build("c11_es", [os.path.join(ROOT, "harness", "c11_es.cpp")] + repo_src(*SRC))
@@ -340,6 +628,8 @@ def main():
         cmds = [l for l in open(ck.replay).read().split("\n") if l.strip() and not l.startswith("#")]
         runs = [(c, "base") for c in cmds if c.startswith("RUN")]
         cors = [c for c in cmds if c.startswith("COR")]; ecors = [c for c in cmds if c.startswith("ECOR")]; pens = [c for c in cmds if c.startswith("P ")]
+        scors = [c for c in cmds if c.startswith("SCOR")]; ccors = [c for c in cmds if c.startswith("CCOR")]; vcors = [c for c in cmds if c.startswith("VCOR")]
+        chols = [c for c in cmds if c.startswith("CH ")]
         allsph = set(sphere_runs(range(1, 7), range(2, 11)))
         sph = [c for c, _ in runs if c in allsph]      # a replayed sphere-budget run is judged against the budget table again
         runs = [(c, r) for c, r in runs if c not in allsph]
@@ -355,6 +645,10 @@ def main():
         cors = gen_cor(rng, 60 if not big else 1200)
         ecors = gen_ecor(rng, 30 if not big else 500)
         pens = gen_pen(rng, 300 if not big else 5000)
+        scors = gen_scor(rng, 60 if not big else 800)
+        ccors = gen_ccor(rng, 80 if not big else 600)
+        vcors = gen_vcor(rng, 60 if not big else 800)
+        chols = gen_chol(rng, 400 if not big else 6000)
         sph = sphere_runs([1, 2] if not big else [1, 2, 3, 4, 5, 6], [2, 5, 10] if not big else [2, 3, 4, 5, 7, 10])
         cdir = os.path.join(ROOT, "corpus", PID)
         if os.path.isdir(cdir):
@@ -364,6 +658,10 @@ def main():
                     elif c.startswith("COR"): cors.append(c)
                     elif c.startswith("ECOR"): ecors.append(c)
                     elif c.startswith("P "): pens.append(c)
+                    elif c.startswith("SCOR"): scors.append(c)
+                    elif c.startswith("CCOR"): ccors.append(c)
+                    elif c.startswith("VCOR"): vcors.append(c)
+                    elif c.startswith("CH "): chols.append(c)
 
     def report(key, msg, cmdlines, extra=None):
         cf = ck.write_replay("case_%d.txt" % len(ck.violations), "\n".join(cmdlines) + "\n")
@@ -478,6 +776,124 @@ def main():
               ndis == 0 and nmonc == 0, "" if not (ndis or nmonc) else "%d monitor failures, %d disagreements" % (nmonc, ndis))
     ck.notes["cor_updates"] = len(recs); ck.notes["cor_updates_in_corner_c1+cMu=1"] = corner; ck.notes["cor_updates_with_tied_fitness_skipped"] = ties
 
+    # ---------------- correspondence of the Cholesky-factor optimizers and VDCMA: CMSA::updatePopulation, CMAChromosome, VDCMA::updateStrategyParameters
+    tie_reports = [0]
+    def tie(tag, cmds, prefix, parse, mline, monitor, impl_of, layout, viol_key, what):
+        """spec monitor first (on the implementation's record, independent of the model), then model = implementation.
+        returns (records, disagreements, monitor failures, records skipped for fitness ties, parsed records)"""
+        nonlocal evals
+        if not cmds: return 0, 0, 0, 0, []
+        rc, out, err = run_harness(exe, cmds, os.path.join(tmpd, tag + ".txt"))
+        blocks = split_blocks(out); recs = []; nmon = 0
+        for cmd, blk in zip(cmds, blocks + [["<truncated>"]] * (len(cmds) - len(blocks))):
+            st = 0
+            for l in blk:
+                if l.startswith(prefix + " "):
+                    recs.append((cmd, st, parse(l))); st += 1
+                elif l.startswith("EXC") or l == "<truncated>":
+                    nmon += 1; report(tag + ":exception", "`%s`: %s" % (cmd, l), [cmd])
+        mlines = [mline(r) for _, _, r in recs]
+        rcm, mout, merr = run_lines(model, mlines, os.path.join(tmpd, tag + "_model.txt")) if mlines else (0, [], "")
+        if rcm != 0 or len(mout) != len(mlines):
+            raise RuntimeError("model driver failed on %s lines: rc=%s %s" % (prefix, rcm, merr[-500:]))
+        ndis = 0; first = None; ties = 0
+        for (cmd, st, r), mo in zip(recs, mout):
+            evals += 1
+            bad = monitor(cmd, st, r)
+            if bad:
+                key, msg = bad[0]
+                if ck.match_known(key) is None: nmon += 1
+                else: nknown[0] += 1
+                if key not in seen_keys and tie_reports[0] < 6:
+                    seen_keys.add(key); tie_reports[0] += 1; report(key, msg, [cmd], {"step": st, "record": r})
+                continue
+            if r.get("ties"):
+                ties += 1; continue      # std::sort leaves the order of tied offspring unspecified; the model's tie rule (stable) need not match
+            mt = mo.split()[1:]; impl = impl_of(r)
+            if mt == ["EXC"]:
+                diff = ["model: Cholesky update indefinite (None), implementation: no exception"]; mod = {}
+            else:
+                mt = [fh(x) for x in mt]; p = 0; mod = {}
+                for k, ln in layout(r["n"]):
+                    mod[k] = mt[p:p + ln]; p += ln
+                diff = [k for k in impl if not vclose(impl[k], mod[k])]
+            if diff:
+                ndis += 1
+                if first is None: first = (cmd, st, diff, r, mod, impl)
+        if ndis and not nmon and not ck.violations:
+            cmd, st, diff, r, mod, impl = first
+            cf = ck.write_replay(tag + "_case.txt", cmd + "\n")
+            ck.violation(viol_key, {"case_file": cf, "case": [cmd], "step": st, "differs_in": diff, "model_output": mod, "implementation_output": impl, "record": r,
+                                    "replay_cmd": "python3 tools/c11.py --replay %s" % cf, "broken": "correspondence " + what},
+                         "correspondence %s no longer checks (%s differ on %d updates); the spec monitors pass on every explored input" % (what, ",".join(diff), ndis), no_input=True)
+        return len(recs), ndis, nmon, ties, [r for _, _, r in recs]
+
+    fl = lambda xs: [fh(x) for x in xs]
+    # CMSA
+    k, ndis, nm, ties, _ = tie("scor", scors, "SU", parse_su, model_line_su, monitor_su,
+                               lambda r: {"sigma": [fh(r["post"]["sigma"])], "mean": fl(r["post"]["mean"]), "L": fl(r["post"]["L"])},
+                               lambda n: (("sigma", 1), ("mean", n), ("L", n * n)), "correspondence-cmsa", "C11Model.cmsa_update vs CMSA::updatePopulation")
+    ck.oblige("correspondence C11Model.cmsa_update (float, incl. chol_update) = CMSA::updatePopulation at 1e-10 on %d updates of %d runs; step() = generate+evaluate+update exactly; "
+              "monitors: sigma' > 0, factor lower triangular with positive diagonal, mean/sigma = averages over the mu best, L'L'^T = (1-1/cC)LL^T + 1/(mu cC) sum step step^T, rank-only" % (k, len(scors)),
+              ndis == 0 and nm == 0, "" if not (ndis or nm) else "%d monitor failures, %d disagreements" % (nm, ndis))
+    ck.notes["scor_updates"] = k; ck.notes["scor_updates_with_tied_fitness_skipped"] = ties
+    # CMAChromosome (ElitistCMA)
+    k, ndis, nm, ties, crecs = tie("ccor", ccors, "CU", parse_cu, model_line_cu, monitor_cu,
+                                   lambda r: {"L": fl(r["post"]["L"]), "pc": fl(r["post"]["pc"]), "sigma": [fh(r["post"]["ss"][0])], "psucc": [fh(r["post"]["ss"][1])]},
+                                   lambda n: (("L", n * n), ("pc", n), ("sigma", 1), ("psucc", 1)), "correspondence-chromosome",
+                                   "C11Model.ecma_chrom_step vs CMAChromosome::updateAsOffspring/updateAsParent/roundUpdate in ElitistCMA::step")
+    branches = {}
+    for r in crecs: branches[r.get("branch", "?")] = branches.get(r.get("branch", "?"), 0) + 1
+    ck.oblige("correspondence C11Model.ecma_chrom_step (float, incl. chol_update) = CMAChromosome update inside ElitistCMA::step at 1e-10 on %d steps of %d runs; "
+              "monitors: sigma' > 0, factor diagonal > 0, lastStep = L lastZ, L'L'^T = alpha LL^T + beta vv^T for the branch recomputed from the record, no exception" % (k, len(ccors)),
+              ndis == 0 and nm == 0, "" if not (ndis or nm) else "%d monitor failures, %d disagreements" % (nm, ndis))
+    ck.notes["ccor_steps"] = k; ck.notes["ccor_branch_counts"] = branches
+    # VDCMA
+    k, ndis, nm, ties, vrecs = tie("vcor", vcors, "VU", parse_vu, model_line_vu, monitor_vu,
+                                   lambda r: dict([(f, fl(r["post"][f])) for f in ("mean", "D", "vn", "pc", "ps")] + [(f, [fh(r["post"][f])]) for f in ("sigma", "normv")]
+                                                  + [("cov", vd_cov_py(fl(r["post"]["D"]), fl(r["post"]["vn"]), fh(r["post"]["normv"]))), ("sample_x", fl(r["sx"])), ("sample_y", fl(r["sy"]))]),
+                                   lambda n: (("sigma", 1), ("mean", n), ("D", n), ("vn", n), ("normv", 1), ("pc", n), ("ps", n), ("cov", n * n), ("sample_x", n), ("sample_y", n)),
+                                   "correspondence-vdcma", "C11Model.vd_update / vd_sample / vd_cov vs VDCMA::updateStrategyParameters / createSample / D(I+vv^T)D")
+    ck.oblige("correspondence C11Model.vd_update (float) = VDCMA selection + counter + updateStrategyParameters, C11Model.vd_sample = VDCMA::createSample on the recorded normal draws, "
+              "C11Model.vd_cov = D(I+vv^T)D of the post state, at 1e-10 on %d updates of %d runs; step() = sample+evaluate+select+update exactly; "
+              "monitors: sigma' > 0, every D_i > 0, |v| > 0, |vn| = 1, D(I+vv^T)D positive definite, mean' = weighted recombination of the mu best" % (k, len(vcors)),
+              ndis == 0 and nm == 0, "" if not (ndis or nm) else "%d monitor failures, %d disagreements" % (nm, ndis))
+    ck.notes["vcor_updates"] = k; ck.notes["vcor_updates_with_tied_fitness_skipped"] = ties
+    ck.notes["vcor_updates_by_dimension"] = {str(n): sum(1 for r in vrecs if r["n"] == n) for n in sorted(set(r["n"] for r in vrecs))}
+
+    # ---------------- cholesky_decomposition::update directly: exact spec, exception exit, model
+    if chols:
+        rc, out, err = run_harness(exe, chols, os.path.join(tmpd, "chol.txt"))
+        cout = [l for l in out if l.startswith("CH ")]
+        rcm, mout, merr = run_lines(model, ["H " + c[3:] for c in chols], os.path.join(tmpd, "chol_model.txt"))
+        if rcm != 0 or len(mout) != len(chols): raise RuntimeError("model driver failed on H lines: " + merr[-500:])
+        nspec = ndis = nexc = 0; firstc = None
+        if len(cout) != len(chols):
+            report("chol:crash", "harness stopped after %d of %d CH lines" % (len(cout), len(chols)), chols[len(cout):len(cout) + 1]); nspec += 1
+        for line, io, mo in zip(chols, cout, mout):
+            evals += 1
+            got = io.split()[1:]; mod = mo.split()[1:]
+            if got[:1] == ["EXC"]: nexc += 1
+            m = spec_chol(line, got)
+            if m:
+                if ck.match_known("chol:spec") is None: nspec += 1
+                else: nknown[0] += 1
+                if "chol:spec" not in seen_keys:
+                    seen_keys.add("chol:spec"); report("chol:spec", "`%s`: %s" % (line, m), [line])
+                continue
+            same = (got == mod) if (got[:1] == ["EXC"] or mod[:1] == ["EXC"]) else vclose([fh(a) for a in got[0].split(",")], [fh(a) for a in mod])
+            if not same:
+                ndis += 1
+                if firstc is None: firstc = (line, got, mod)
+        if ndis and not nspec and not ck.violations:
+            cf = ck.write_replay("chol_case.txt", firstc[0] + "\n")
+            ck.violation("correspondence-cholupdate", {"case_file": cf, "case": [firstc[0]], "implementation_output": firstc[1], "model_output": firstc[2],
+                                                        "replay_cmd": "python3 tools/c11.py --replay %s" % cf},
+                         "correspondence C11Model.chol_update vs cholesky_decomposition::update no longer checks (%d of %d inputs); the exact spec holds on every explored input" % (ndis, len(chols)), no_input=True)
+        ck.oblige("cholesky_decomposition::update = exact spec (throws iff alpha LL^T + beta vv^T is not positive definite, else L'L'^T = that matrix, 1e-9) = C11Model.chol_update (None iff throws, else 1e-10) "
+                  "on %d exact inputs (%d of them throw)" % (len(chols), nexc), nspec == 0 and ndis == 0)
+        ck.notes["chol_inputs"] = len(chols); ck.notes["chol_inputs_that_throw"] = nexc
+
     # ---------------- correspondence ElitistCMA acceptance
     rc, out, err = run_harness(exe, ecors, os.path.join(tmpd, "ecor.txt"))
     eblocks = split_blocks(out); ndis = nmone = 0; mlines = []; meta = []
@@ -540,10 +956,12 @@ def main():
     ck.oblige("PenalizingEvaluator = exact spec = C11Model.penalized_eval on %d dyadic inputs" % len(pens), npen == 0 and ndis == 0)
 
     ck.cov["evaluations"] = evals
-    ck.cov["distinct_nontrivial"] = len(nontrivial) + len(set(cors)) + len(set(ecors)) + len(set(pens))
+    ck.cov["distinct_nontrivial"] = len(nontrivial) + len(set(cors)) + len(set(ecors)) + len(set(pens)) + len(set(scors)) + len(set(ccors)) + len(set(vcors)) + len(set(chols))
     ck.cov["rule"] = ("optimizer steps (RUN: 7 optimizer configurations x dimension 2..10 x population sizes / recombination types / initial sigmas / seeds / 7 objectives, each run four times (fresh, fresh again with the same seed, on 4*f, and on an object re-initialised after an earlier run): "
-                      "twice with the same seed and once on 4*f), CMA updates replayed through the model (COR), ElitistCMA steps (ECOR), PenalizingEvaluator calls (P); non-trivial = more than 2 steps; distinct = distinct command lines")
-    ck.cov["samples"] = [runs[0][0] if runs else "", cors[0] if cors else "", ecors[0] if ecors else "", pens[0] if pens else ""]
+                      "twice with the same seed and once on 4*f), CMA updates replayed through the model (COR), ElitistCMA steps (ECOR), PenalizingEvaluator calls (P), "
+                      "CMSA updates (SCOR), CMAChromosome updates inside ElitistCMA steps (CCOR) and VDCMA updates (VCOR) replayed through the model, direct Cholesky rank-one updates on exact inputs (CH); non-trivial = more than 2 steps; distinct = distinct command lines")
+    ck.cov["samples"] = [runs[0][0] if runs else "", cors[0] if cors else "", ecors[0] if ecors else "", pens[0] if pens else "",
+                         scors[0] if scors else "", ccors[0] if ccors else "", vcors[0] if vcors else "", chols[0] if chols else ""]
     ck.notes["failures_matching_known_findings"] = nknown[0]
     ck.notes["runs"] = len(runs); ck.notes["monitor_keys_reported"] = sorted(seen_keys)
     ck.finish()
